@@ -43,7 +43,7 @@ var engines = map[string]string{
 
 // additional engines that contribute shards to a property's check (their TestPlan is asked too)
 var extraEngines = map[string][]string{
-	"C07": {"cli"}, "C11": {"cli"}, "C15": {"cli"}, "C14": {"cli"}, "C05": {"cli"}, "C03": {"cli"}, "C08": {"cli"}, "C01": {"cli"}, "C02": {"cli"}, "C18": {"cli"}, "C06": {"cli"},
+	"C07": {"cli"}, "C11": {"cli"}, "C15": {"cli"}, "C14": {"cli"}, "C05": {"cli"}, "C03": {"cli"}, "C08": {"cli"}, "C01": {"cli"}, "C02": {"cli"}, "C18": {"cli"}, "C06": {"cli"}, "C04": {"cli"},
 }
 
 // engines whose checks run the spok binary
